@@ -190,7 +190,7 @@ package bytesconv
 //@ pure func escArg(c int) bool = QuotedArgShouldEscapeTable[c] != 0
 //@ macro argPlain(c) = c != ' ' && !escArg(c)
 //@ macro argTok(e, p, c, pn) = (c == ' ' ==> e[p] == '+' && pn == p + 1) && (c != ' ' && escArg(c) ==> e[p] == '%' && e[p+1] == upperhex[c / 16] && e[p+2] == upperhex[c % 16] && pn == p + 3) && (argPlain(c) ==> e[p] == c && pn == p + 1)
-//@ macro isArgEncoding(e) = qn >= 0 && qpos[0] == 0 && qpos[qn] == len(e) && 0 <= qfs && qfs <= qn && forall(k, 0, qn, 0 <= qx[k] && qx[k] <= 255 && argTok(e, qpos[k], qx[k], qpos[k+1])) && forall(k, 0, qn + 1, qpos[k] + (qn - k) <= len(e) && k <= qpos[k]) && forall(k, 0, qfs + 1, qpos[k] == k) && forall(k, 0, qfs, argPlain(qx[k])) && (qfs < qn ==> !argPlain(qx[qfs]))
-//@ macro hexTablesInverse() = forall(v, 0, 16, hexv(upperhex[v]) == v && upperhex[v] != '%' && upperhex[v] != '+')
+//@ macro isArgEncoding(e) = qn >= 0 && qpos[0] == 0 && qpos[qn] == len(e) && 0 <= qfs && qfs <= qn && forallT(k, 0, qn, qx[k], 0 <= qx[k] && qx[k] <= 255 && argTok(e, qpos[k], qx[k], qpos[k+1])) && forallT(k, 0, qn + 1, qpos[k], qpos[k] + (qn - k) <= len(e) && k <= qpos[k]) && forallT(k, 0, qfs + 1, qpos[k], qpos[k] == k) && forallT(k, 0, qfs, qx[k], argPlain(qx[k])) && (qfs < qn ==> !argPlain(qx[qfs]))
+//@ macro hexTablesInverse() = forallT(v, 0, 16, upperhex[v], hexv(upperhex[v]) == v && upperhex[v] != '%' && upperhex[v] != '+')
 //@ macro argTablesFacts() = escArg('%') && escArg('+') && !escArg('0')
 //@ macro hexU(v) = upperhex[v]
